@@ -118,3 +118,30 @@ pub fn io_kind(k: io::ErrorKind) -> &'static str {
         _ => "OtherKind",
     }
 }
+
+/// Sparse virtual `Read + Seek` stream (io::Cursor seek semantics) to be wrapped in mediasan's SeekSkipAdapter.
+pub struct SparseSeek(pub Sparse);
+
+impl Read for SparseSeek {
+    fn read(&mut self, buf: &mut [u8]) -> io::Result<usize> {
+        self.0.read(buf)
+    }
+}
+
+impl io::Seek for SparseSeek {
+    fn seek(&mut self, from: io::SeekFrom) -> io::Result<u64> {
+        let bad = || io::Error::new(io::ErrorKind::InvalidInput, "invalid seek to a negative or overflowing position");
+        let new = match from {
+            io::SeekFrom::Start(n) => Some(n),
+            io::SeekFrom::End(d) => mediasan_common::util::checked_add_signed(self.0.len, d),
+            io::SeekFrom::Current(d) => mediasan_common::util::checked_add_signed(self.0.pos, d),
+        };
+        match new {
+            Some(n) => {
+                self.0.pos = n;
+                Ok(n)
+            }
+            None => Err(bad()),
+        }
+    }
+}
